@@ -29,6 +29,7 @@ from vlib import treegen as tg, paths
 LEAN_TARGETS = ["LyModel.Props.C14"]
 AUDIT = "Audit/C14.lean"
 HARNESS = "api_merge"
+STDERR_KEEP = int(os.environ.get("VERIF_STDERR_KEEP", "2500"))
 COMP = "merge"
 ENV = {"VERIF_YANG_DIR": os.path.join(paths.REPO, "tests", "modules", "yang")}
 ASSUMPTIONS = [
@@ -245,6 +246,10 @@ def classify(component, what, case):
             return "F70"
         if law == "crash" and (op == "mlaw" or (case.get("opts") or 0) & M_DESTRUCT) and "lyds_insert2" in case.get("stderr", ""):
             return "F70"
+    if law == "crash" and op in ("dlaw", "indep"):
+        va = [l for l in case.get("stderr", "").split("\n") if l.startswith("[verif-asan]")]
+        if va and "kind=heap-use-after-free" in va[-1] and "chg-sorted-ll" in va[-1] and "lyd_hash_table_val_equal" in va[-1]:
+            return "F73"
     if op == "mlaw" and law == "containsx" and "explicit-leaflist-instance-on-default" in feat:
         return "F71"
     if op in ("dlaw", "dup") and law == "dup" and case.get("verdict") == "Enotfound" and "top-in-choice" in feat and (case.get("mode") or 0) >= 2:
@@ -398,6 +403,9 @@ def payload(c, op, law, verdict, opts=None, extra=None):
 
 def sanitizer_line(err):
     for l in err.split("\n"):
+        if l.startswith("[verif-asan]"):
+            return l.strip()[:300]
+    for l in err.split("\n"):
         if "ERROR: AddressSanitizer" in l or "runtime error:" in l or "ERROR: LeakSanitizer" in l:
             return l.strip()[:200]
     tail = [l for l in err.strip().split("\n") if l.strip()]
@@ -490,7 +498,7 @@ def process_merge(cx, schemas, cases, tag, rng, all_opts=True, laws=1.3, budget=
         cx.count((c.s.name, c.t, c.src, o, api), nontrivial, "merge:%s:%s" % (("api%d" % api), a[0] if a[0] == "ok" else a[1]))
         if i in crash_ids:
             cx.fail(COMP, "harness aborted in lyd_merge (%s)" % sanitizer_line(crash_ids[i].get("stderr", "")),
-                    payload(c, "merge", "crash", "crash", o, {"api": api, "stderr": crash_ids[i].get("stderr", "")[-2500:]}))
+                    payload(c, "merge", "crash", "crash", o, {"api": api, "stderr": crash_ids[i].get("stderr", "")[-STDERR_KEEP:]}))
             continue
         if o & M_DESTRUCT:
             # the law "same result whether or not the source is consumed", on the two implementation results
@@ -533,7 +541,7 @@ def process_merge(cx, schemas, cases, tag, rng, all_opts=True, laws=1.3, budget=
     for i, (c, o) in idx.items():
         if i in crash_ids:
             cx.fail(COMP, "harness aborted while the merge laws were evaluated (%s)" % sanitizer_line(crash_ids[i].get("stderr", "")),
-                    payload(c, "mlaw", "crash", "crash", o, {"stderr": crash_ids[i].get("stderr", "")[-2500:]}))
+                    payload(c, "mlaw", "crash", "crash", o, {"stderr": crash_ids[i].get("stderr", "")[-STDERR_KEEP:]}))
             continue
         eval_mlaw(cx, c, o, rep.get(i, ["err", "NoReply"]))
 
@@ -578,7 +586,7 @@ def process_indep(cx, schemas, cases, tag, rng, per_case, budget=None):
     for i, (c, o, seed) in idx.items():
         if i in crash_ids:
             cx.fail(COMP, "sanitizer abort after a merge while an operand was edited / freed (%s)" % sanitizer_line(crash_ids[i].get("stderr", "")),
-                    payload(c, "indep", "crash", "crash", o, {"seed": seed, "stderr": crash_ids[i].get("stderr", "")[-2500:]}))
+                    payload(c, "indep", "crash", "crash", o, {"seed": seed, "stderr": crash_ids[i].get("stderr", "")[-STDERR_KEEP:]}))
             continue
         eval_indep(cx, c, o, seed, rep.get(i, ["err", "NoReply"]))
 
@@ -696,7 +704,7 @@ def dup_payload(c, op, law, verdict, ni, o, mode, seed, feat, stderr=None):
     p = {"op": op, "law": law, "verdict": verdict, "opts": o, "mode": mode, "node": ni, "seed": seed, "features": feat, "variant": c.variant,
          "schema_dsl": c.s.dsl().decode(), "schema_yang": c.s.yang(), "T": c.t, "T_text": tg.pretty(c.s, tg.untok(c.s, c.t))[:3000]}
     if stderr:
-        p["stderr"] = stderr[-2500:]
+        p["stderr"] = stderr[-STDERR_KEEP:]
     return p
 
 
@@ -873,7 +881,7 @@ def replay(cx, payload):
         rep, crashes = run_impl(cx, [s], ["l0 %s mlaw %s %s %s %d 1" % (COMP, d, c.t, c.src, oc)])
         if crashes:
             cx.fail(COMP, "harness aborted while the merge laws were evaluated (%s)" % sanitizer_line(crashes[0].get("stderr", "")),
-                    payload_of(c, "mlaw", "crash", "crash", oc, {"stderr": crashes[0].get("stderr", "")[-2500:]}))
+                    payload_of(c, "mlaw", "crash", "crash", oc, {"stderr": crashes[0].get("stderr", "")[-STDERR_KEEP:]}))
         else:
             eval_mlaw(cx, c, oc, rep.get("l0", ["err", "NoReply"]))
         ri, crashes = run_impl(cx, [s], ["m0 %s merge %s %s %s %d %d" % (COMP, d, c.t, c.src, o, f.get("api") or 0)])
@@ -885,7 +893,7 @@ def replay(cx, payload):
         rep, crashes = run_impl(cx, [s], ["i0 %s indep %s %s %s %d %d" % (COMP, d, c.t, c.src, o, seed)])
         if crashes:
             cx.fail(COMP, "sanitizer abort after a merge while an operand was edited / freed (%s)" % sanitizer_line(crashes[0].get("stderr", "")),
-                    payload_of(c, "indep", "crash", "crash", o, {"seed": seed, "stderr": crashes[0].get("stderr", "")[-2500:]}))
+                    payload_of(c, "indep", "crash", "crash", o, {"seed": seed, "stderr": crashes[0].get("stderr", "")[-STDERR_KEEP:]}))
         else:
             eval_indep(cx, c, o, seed, rep.get("i0", ["err", "NoReply"]))
     elif op in ("dlaw", "dup"):
